@@ -178,7 +178,21 @@ fn gen_bool(r: &mut Rng, depth: u32) -> E {
     if depth == 0 || r.chance(1, 4) {
         return match r.below(3) { 0 => E::Ref("B"), 1 => E::Bool(true), _ => E::Bool(false) };
     }
-    match r.below(8) {
+    match r.below(10) {
+        // comparisons that mix int and float operands (either side), and float with float
+        8 => {
+            let fl = |r: &mut Rng| match r.below(3) { 0 => E::Ref("F"), 1 => E::Float(3.5), _ => E::Float(2.0) };
+            let op = ["eq", "ne", "lt", "gt", "le", "ge"][r.below(6) as usize];
+            match r.below(3) {
+                0 => E::Bin(op, b(gen_int_atom(r)), b(fl(r))),
+                1 => E::Bin(op, b(fl(r)), b(gen_int_atom(r))),
+                _ => E::Bin(op, b(fl(r)), b(fl(r))),
+            }
+        }
+        9 => {
+            let op = ["eq", "ne", "lt", "gt", "le", "ge"][r.below(6) as usize];
+            E::Bin("and", b(E::Bin(op, b(gen_int_atom(r)), b(E::Ref("F")))), b(gen_bool_atom(r)))
+        }
         0 => E::Bin("or", b(gen_bool(r, depth - 1)), b(gen_and(r, depth - 1))),
         1 => gen_and(r, depth),
         2 => E::Not(b(gen_bool_atom(r))),
@@ -450,6 +464,62 @@ pub fn run(out: &mut Out, tier: &str, seed: u64, _scratch: &str) {
     let couts = runner::run_batch("/verif/.build/batch/c06", "/verif/.build/batch-target", &ccases);
     for ((e, t), o) in cexprs.iter().zip(couts.iter()) {
         out.case(&format!("c06 construn {defs} {}", enc_s(e)), &canon_run(o, t));
+    }
+    // E: frozen (const) sets and lists against what the same literal means at run time: membership of every element
+    // and of absent values, and the length; elements are written in a shuffled order
+    let n_e = if tier == "thorough" { 60 } else { 12 };
+    let mut fz_cases: Vec<Case> = Vec::new();
+    let mut fz_expect: Vec<String> = Vec::new();
+    let mut fz_sets: Vec<(Vec<i64>, Vec<i64>)> = Vec::new();
+    for _ in 0..n_e {
+        let k = 3 + rng.below(5) as usize;
+        let mut ints: Vec<i64> = Vec::new();
+        while ints.len() < k {
+            let v = rng.range(-9, 30);
+            if !ints.contains(&v) { ints.push(v); }
+        }
+        let words = ["pear", "fig", "apple", "kiwi", "date", "plum", "lime"];
+        let mut strs: Vec<&str> = words.to_vec();
+        for i in (1..strs.len()).rev() { let j = rng.below(i as u64 + 1) as usize; strs.swap(i, j); }
+        strs.truncate(2 + rng.below(4) as usize);
+        let probes_i: Vec<i64> = ints.iter().copied().chain([-10, 31, ints[0] + 100]).collect();
+        let probes_s: Vec<&str> = strs.iter().copied().chain(["zzz", ""]).collect();
+        let mut src = format!("const NUMS: Set[int] = {{{}}}\nconst WORDS: Set[str] = {{{}}}\nconst SEQ: List[int] = [{}]\n\ndef main() -> None:\n",
+            ints.iter().map(|v| v.to_string()).collect::<Vec<_>>().join(", "),
+            strs.iter().map(|w| format!("\"{w}\"")).collect::<Vec<_>>().join(", "),
+            ints.iter().map(|v| v.to_string()).collect::<Vec<_>>().join(", "));
+        let mut exp: Vec<String> = Vec::new();
+        for p in &probes_i {
+            src.push_str(&format!("    print(NUMS.contains({p}))\n"));
+            exp.push(ints.contains(p).to_string());
+        }
+        for p in &probes_s {
+            src.push_str(&format!("    print(WORDS.contains(\"{p}\"))\n"));
+            exp.push(strs.contains(p).to_string());
+        }
+        src.push_str("    print(NUMS.len())\n    print(WORDS.len())\n    print(SEQ.len())\n");
+        exp.push(ints.len().to_string());
+        exp.push(strs.len().to_string());
+        exp.push(ints.len().to_string());
+        fz_cases.push(Case { name: String::new(), source: src });
+        fz_expect.push(exp.join("|"));
+        fz_sets.push((ints.clone(), probes_i.clone()));
+    }
+    let fz_outs = runner::run_batch("/verif/.build/batch/c06", "/verif/.build/batch-target", &fz_cases);
+    for (i, (o, exp)) in fz_outs.iter().zip(fz_expect.iter()).enumerate() {
+        let real = match o {
+            Outcome::Ran { stdout, code: 0, .. } => stdout.trim().replace('\n', "|"),
+            other => runner::show(other),
+        };
+        out.case(&format!("c06 frozen {i} {exp}"), &real);
+        // the integer set alone, with its elements and probes, for the model (Sem/Comprehension `contains`)
+        let (ints, probes) = &fz_sets[i];
+        let n = probes.len();
+        let got: Vec<&str> = real.split('|').take(n).collect();
+        out.case(
+            &format!("c06 frozenset {} {}", ints.iter().map(|v| v.to_string()).collect::<Vec<_>>().join(","), probes.iter().map(|v| v.to_string()).collect::<Vec<_>>().join(",")),
+            &got.join(","),
+        );
     }
     let _ = std::fs::remove_dir_all("/verif/.build/batch/c06");
     // D: dependency graphs
